@@ -169,7 +169,7 @@ Section Hist.
     intros [Ha _] H. destruct (p_added p) eqn:E; [apply Ha; reflexivity | exact H].
   Qed.
 
-  Ltac psimpl := unfold pinv; cbn [fst snd p_cfg p_cr p_cfgarg p_adds p_setup p_cnt p_added p_live].
+  Ltac psimpl := unfold pinv; cbn [fst snd p_cfg p_cr p_cfgarg p_adds p_setup p_cnt p_added p_live p_cfgdef].
 
   (* a parse keeps the invariant of its own parser *)
   Lemma parse_step_pinv g p argv :
@@ -259,10 +259,10 @@ Section Hist.
   Lemma parse_obs_fresh g p argv :
     pinv p ->
     b_spelling f g p = true -> b_registry f g p = true -> b_cfgarg f p = true -> b_tuple f p = true ->
-    b_frozen f ftbl p argv = true -> b_defaults f p = true ->
+    b_frozen f ftbl p argv = true -> b_defaults f p = true -> b_cfgattr f p = true ->
     snd (parse_step g p argv) = fresh (def_of p) argv.
   Proof.
-    intros Hp Hsp Hrg Hcf Htu Hfr Hde. pose proof Hp as [Ha Hs].
+    intros Hp Hsp Hrg Hcf Htu Hfr Hde Hca. pose proof Hp as [Ha Hs].
     unfold History.fresh. change (df_cfg (def_of p)) with (p_cfg p).
     set (q := new_p (def_of p)). set (g0 := mkglob (p_cfg p) []).
     assert (Hprep : prep q argv = prep p argv) by (symmetry; apply prep_new; exact Hde).
@@ -274,6 +274,10 @@ Section Hist.
     assert (Hq5 : p_cnt q = []) by reflexivity.
     assert (Hq6 : p_added q = false) by reflexivity.
     assert (Hq7 : cached q = None) by reflexivity.
+    assert (Hq9 : cfg_default f q argv = cfg_default f p argv).
+    { unfold cfg_default. rewrite Hq6. cbn [andb]. unfold b_cfgattr in Hca.
+      destruct (cfgarg_refreshed f); [rewrite andb_false_r; reflexivity|].
+      cbn in Hca. apply negb_true_iff in Hca. rewrite Hca. reflexivity. }
     (* the fresh interpreter's set-up sees the definition itself: its registry is empty *)
     assert (Hown : forall live args, setup_in f (setup_g g0 q) q live args
                                      = do_setup (p_cfg p) (p_cr p) (p_adds p) live args).
@@ -282,11 +286,11 @@ Section Hist.
         by (destruct (reasserts f); reflexivity).
       cbn [g0 gl_reg]. rewrite resolve_nil. reflexivity. }
     unfold History.parse_step.
-    rewrite Hprep, Hq1, Hq2, Hq8, Hq3, Hq4, Hq5, Hq6, Hq7.
+    rewrite Hprep, Hq1, Hq2, Hq8, Hq3, Hq4, Hq5, Hq9, Hq6, Hq7.
     unfold b_frozen in Hfr.
     destruct (prep p argv) as [args [rl live1]].
     rewrite (Hown live1 args).
-    clearbody q g0. clear Hprep Hq1 Hq2 Hq8 Hq3 Hq4 Hq5 Hq6 Hq7 Hown.
+    clearbody q g0. clear Hprep Hq1 Hq2 Hq8 Hq3 Hq4 Hq5 Hq6 Hq7 Hq9 Hown.
     assert (Hc0 : (if tuple_counter_persists f then p_cnt p else []) = []).
     { unfold b_tuple in Htu. destruct (tuple_counter_persists f); [|reflexivity].
       cbn in Htu. destruct (p_cnt p); [reflexivity | discriminate]. }
@@ -331,10 +335,11 @@ Section Hist.
         cbn [obs_from nth_error]. f_equal.
         cbn [History.step]. rewrite Hg.
         cbn [op_benign] in Hb1. rewrite Hg in Hb1.
+        apply andb_true_iff in Hb1 as [Hb1 H6].
         apply andb_true_iff in Hb1 as [Hb1 H5]. apply andb_true_iff in Hb1 as [Hb1 H4].
         apply andb_true_iff in Hb1 as [Hb1 H3]. apply andb_true_iff in Hb1 as [H1 H2].
         apply andb_true_iff in H1 as [H1 H1r].
-        pose proof (parse_obs_fresh (st_g s) p argv (HI i p Hg) H1 H1r H2 H3 H4 H5) as He.
+        pose proof (parse_obs_fresh (st_g s) p argv (HI i p Hg) H1 H1r H2 H3 H4 H5 H6) as He.
         destruct (parse_step (st_g s) p argv) as [[g' p'] rr]. cbn in He. cbn. rewrite He. reflexivity.
       + cbn [nth_error] in Hk. cbn [firstn History.run_ops] in Hg. cbn [obs_from nth_error].
         eapply IH; [apply step_inv; eassumption | exact Hb2 | exact Hk | exact Hg].
@@ -423,10 +428,16 @@ Section Hist.
       split; reflexivity.
   Qed.
 
+  (* refreshed, the default of the help-only --config_path action - the `config_path` attribute of the result - is a
+     function of THIS call's argv alone *)
+  Lemma cfg_attr_of_this_call p argv : cfgarg_refreshed f = true -> cfg_default f p argv = cfg_attr argv.
+  Proof. intro H. unfold cfg_default. rewrite H, andb_false_r. reflexivity. Qed.
+
   (* every clause of `benign` is guarded by its switch: with all five repaired, every history is benign *)
   Lemma benign_when_repaired : all_repaired f = true -> forall ops s, benign_from f ftbl s ops = true.
   Proof.
     unfold all_repaired. intro H.
+    apply andb_true_iff in H as [H H7].
     apply andb_true_iff in H as [H H6].
     apply andb_true_iff in H as [H H5]. apply andb_true_iff in H as [H H4].
     apply andb_true_iff in H as [H H3]. apply andb_true_iff in H as [H1 H2].
@@ -436,7 +447,7 @@ Section Hist.
     { intro p. unfold History.cached. rewrite H3. destruct (p_setup p); reflexivity. }
     destruct o as [i c ca | i d dest | i argv | i | i]; cbn [op_benign]; try reflexivity.
     - destruct (slot_get (st_slots s) i) as [p|]; [|reflexivity].
-      unfold b_spelling, b_registry, b_cfgarg, b_tuple, b_frozen, b_defaults. rewrite H1, H2, H4, H5, H6, (Hnc p).
+      unfold b_spelling, b_registry, b_cfgarg, b_tuple, b_frozen, b_defaults, b_cfgattr. rewrite H1, H2, H4, H5, H6, H7, (Hnc p).
       cbn. rewrite !andb_false_r. reflexivity.
     - destruct (slot_get (st_slots s) i) as [p|]; [|reflexivity].
       unfold b_spelling, b_registry. rewrite H1, H6. reflexivity.
@@ -516,8 +527,8 @@ Definition ops_spelling : list op :=
   [Construct 0 cfg_dash CRAuto false; AddArgs 0 K1 "a"; Construct 1 init_cfg CRAuto false; Parse 0 ["--my-x"; "4"]].
 Theorem refuted_spelling : forall f, reasserts f = false -> ~ history_full f FILES.
 Proof.
-  intros [r c s t d w k] H; cbn in H; subst r.
-  destruct c, s, t, d, w, k; refute_with ops_spelling 3 0 ["--my-x"; "4"].
+  intros [r c s t d w x k] H; cbn in H; subst r.
+  destruct c, s, t, d, w, k, x; refute_with ops_spelling 3 0 ["--my-x"; "4"].
 Qed.
 
 (* (#11) the second parse of a parser with a config-path argument re-adds --config_path *)
@@ -525,8 +536,8 @@ Definition ops_cfgarg : list op :=
   [Construct 0 init_cfg CRAuto true; AddArgs 0 K1 "a"; Parse 0 []; Parse 0 []].
 Theorem refuted_cfgarg : forall f, cfgarg_every_parse f = true -> ~ history_full f FILES.
 Proof.
-  intros [r c s t d w k] H; cbn in H; subst c.
-  destruct r, s, t, d, w, k; refute_with ops_cfgarg 3 0 (@nil string).
+  intros [r c s t d w x k] H; cbn in H; subst c.
+  destruct r, s, t, d, w, k, x; refute_with ops_cfgarg 3 0 (@nil string).
 Qed.
 
 (* (#12) the tuple converter's counter is past the item types on the second parse *)
@@ -534,8 +545,8 @@ Definition ops_tuple : list op :=
   [Construct 0 init_cfg CRAuto false; AddArgs 0 K3 "a"; Parse 0 ["--pair"; "3"; "x"]; Parse 0 ["--pair"; "3"; "x"]].
 Theorem refuted_tuple : forall f, setup_cached f = true -> tuple_counter_persists f = true -> ~ history_full f FILES.
 Proof.
-  intros [r c s t d w k] H1 H2; cbn in H1, H2; subst s t.
-  destruct r, c, d, w, k; refute_with ops_tuple 3 0 ["--pair"; "3"; "x"].
+  intros [r c s t d w x k] H1 H2; cbn in H1, H2; subst s t.
+  destruct r, c, d, w, k, x; refute_with ops_tuple 3 0 ["--pair"; "3"; "x"].
 Qed.
 
 (* (#13) the subgroup choice is frozen by the first argv ... *)
@@ -543,16 +554,16 @@ Definition ops_frozen_argv : list op :=
   [Construct 0 init_cfg CRAuto false; AddArgs 0 K4 "a"; Parse 0 ["--model"; "mb"]; Parse 0 ["--model"; "ma"]].
 Theorem refuted_frozen_by_argv : forall f, setup_cached f = true -> ~ history_full f FILES.
 Proof.
-  intros [r c s t d w k] H; cbn in H; subst s.
-  destruct r, c, t, d, w, k; refute_with ops_frozen_argv 3 0 ["--model"; "ma"].
+  intros [r c s t d w x k] H; cbn in H; subst s.
+  destruct r, c, t, d, w, k, x; refute_with ops_frozen_argv 3 0 ["--model"; "ma"].
 Qed.
 (* ... or by print_help() *)
 Definition ops_frozen_help : list op :=
   [Construct 0 init_cfg CRAuto false; AddArgs 0 K4 "a"; PrintHelp 0; Parse 0 ["--model"; "mb"]].
 Theorem refuted_frozen_by_help : forall f, setup_cached f = true -> ~ history_full f FILES.
 Proof.
-  intros [r c s t d w k] H; cbn in H; subst s.
-  destruct r, c, t, d, w, k; refute_with ops_frozen_help 3 0 ["--model"; "mb"].
+  intros [r c s t d w x k] H; cbn in H; subst s.
+  destruct r, c, t, d, w, k, x; refute_with ops_frozen_help 3 0 ["--model"; "mb"].
 Qed.
 
 (* (#5') defaults read from a config file by a call that failed are still there in the next call *)
@@ -560,8 +571,8 @@ Definition ops_defaults : list op :=
   [Construct 0 init_cfg CRAuto true; AddArgs 0 K1 "a"; Parse 0 ["--config_path"; "c1.json"; "nofile.json"]; Parse 0 []].
 Theorem refuted_defaults : forall f, defaults_persist f = true -> ~ history_full f FILES.
 Proof.
-  intros [r c s t d w k] H; cbn in H; subst d.
-  destruct r, c, s, t, w, k; refute_with ops_defaults 3 0 (@nil string).
+  intros [r c s t d w x k] H; cbn in H; subst d.
+  destruct r, c, s, t, w, k, x; refute_with ops_defaults 3 0 (@nil string).
 Qed.
 
 (* (seeded C08-03) the done-flag set before the work: a set-up that raised (invalid subgroup key) is never redone *)
@@ -569,16 +580,16 @@ Definition ops_failed_setup : list op :=
   [Construct 0 init_cfg CRAuto false; AddArgs 0 K4 "a"; Parse 0 ["--model"; "zz"]; Parse 0 []].
 Theorem refuted_failed_setup : forall f, setup_cached f = true -> done_after_work f = false -> ~ history_full f FILES.
 Proof.
-  intros [r c s t d w k] H1 H2; cbn in H1, H2; subst s w.
-  destruct r, c, t, d, k; refute_with ops_failed_setup 3 0 (@nil string).
+  intros [r c s t d w x k] H1 H2; cbn in H1, H2; subst s w.
+  destruct r, c, t, d, k, x; refute_with ops_failed_setup 3 0 (@nil string).
 Qed.
 (* ... likewise a ConflictResolutionError (NONE mode, two dataclasses sharing a field name): raised once, then gone *)
 Definition ops_failed_setup_cre : list op :=
   [Construct 0 init_cfg CRNone false; AddArgs 0 K1 "a"; AddArgs 0 L3 "b"; Parse 0 []; Parse 0 []].
 Theorem refuted_failed_setup_cre : forall f, setup_cached f = true -> done_after_work f = false -> ~ history_full f FILES.
 Proof.
-  intros [r c s t d w k] H1 H2; cbn in H1, H2; subst s w.
-  destruct r, c, t, d, k; refute_with ops_failed_setup_cre 4 0 (@nil string).
+  intros [r c s t d w x k] H1 H2; cbn in H1, H2; subst s w.
+  destruct r, c, t, d, k, x; refute_with ops_failed_setup_cre 4 0 (@nil string).
 Qed.
 
 (* (seeded C08-04) the registry keyed by the qualified NAME: a second class with its own `Mode` enum is parsed with
@@ -592,6 +603,17 @@ Definition ops_registry : list op :=
    Construct 1 init_cfg CRAuto false; AddArgs 1 E2 "a"; Parse 1 ["--modes"; "SLOW"]].
 Theorem refuted_registry : forall f, reg_by_class f = false -> ~ history_full f FILES.
 Proof.
-  intros [r c s t d w k] H; cbn in H; subst k.
-  destruct r, c, s, t, d, w; refute_with ops_registry 5 1 ["--modes"; "SLOW"].
+  intros [r c s t d w x k] H; cbn in H; subst k.
+  destruct r, c, s, t, d, w, x; refute_with ops_registry 5 1 ["--modes"; "SLOW"].
+Qed.
+
+(* (0277e53) the help-only --config_path action keeps the default of the call that added it: the `config_path` attribute of
+   a later result is the FIRST call's *)
+Definition ops_cfgattr : list op :=
+  [Construct 0 init_cfg CRAuto true; AddArgs 0 K1 "a"; Parse 0 ["--config_path"; "c1.json"; "--my_x"; "3"];
+   Parse 0 ["--my_x"; "3"]].
+Theorem refuted_cfgattr : forall f, cfgarg_refreshed f = false -> ~ history_full f FILES.
+Proof.
+  intros [r c s t d w x k] H; cbn in H; subst x.
+  destruct r, c, s, t, d, w, k; refute_with ops_cfgattr 3 0 ["--my_x"; "3"].
 Qed.
